@@ -175,3 +175,88 @@ func zzH_C15_shrink() {
 		verifReach("complete")
 	}
 }
+
+
+// pseudo-random, poorly compressible name of n letters/digits (deterministic)
+func zzName15(seed, n int) string {
+	const alpha = "abcdefghijklmnopqrstuvwxyzABCDEFGHIJKLMNOPQRSTUVWXYZ0123456789"
+	b := make([]byte, n)
+	x := uint32(seed)*2654435761 + 12345
+	for i := range b {
+		x = x*1664525 + 1013904223
+		b[i] = alpha[(x>>16)%62]
+	}
+	return string(b)
+}
+
+// long entry headers: a chain of DEPTH nested directories with NAMELEN-character names and a file at the bottom, so
+// that the deepest headers are well over a kilobyte (natively: base64(zlib(JSON)) of poorly compressible names; in the
+// symbolic build the codec token is padded to TOKPAD bytes); the consumer's write size is 1, BIG or the whole stream
+func zzH_C15_longHeader() {
+	root := verifFSRoot()
+	sroot := zzSrcRoot15(root)
+	verifFSAddDir(sroot)
+	verifFSAddDir(sroot + "/d")
+	files := []*sourceFile{{PathID: 0, AbsPath: sroot + "/d", RelPath: []string{"d"}, IsDir: true}}
+	rel := []string{"d"}
+	path := "/d"
+	for i := 0; i < verifBound("DEPTH"); i++ {
+		nm := zzName15(i, verifBound("NAMELEN"))
+		path += "/" + nm
+		rel = append(append([]string{}, rel...), nm)
+		verifFSAddDir(sroot + path)
+		files = append(files, &sourceFile{PathID: 0, AbsPath: sroot + path, RelPath: rel, IsDir: true})
+	}
+	n := verifNondetRange(0, verifBound("S"))
+	content := make([]byte, n)
+	for j := range content {
+		content[j] = verifNondetByte()
+	}
+	verifFSAddFile(sroot+path+"/f", content)
+	files = append(files, &sourceFile{PathID: 0, AbsPath: sroot + path + "/f", RelPath: append(append([]string{}, rel...), "f"), Size: int64(n)})
+	verifFSBegin()
+	snd := newTransfer(zzSink15{}, nil, false, nil)
+	snd.transferConfig.Protocol = 4
+	snd.transferConfig.Directory = true
+	arch := snd.archiveSourceFiles(files)
+	rd, err := snd.newArchiveReader(arch[0])
+	verifAssert(err == nil, "newArchiveReader error")
+	var stream []byte
+	for k := 0; k < 100000; k++ {
+		p := make([]byte, 4096)
+		n, err := rd.Read(p)
+		stream = append(stream, p[:n]...)
+		if err == io.EOF {
+			break
+		}
+		verifAssert(err == nil, "reader error")
+	}
+	rd.Close()
+	verifAssert(int64(len(stream)) == rd.getSize(), "announced size differs from the bytes produced")
+
+	rcv := newTransfer(zzSink15{}, nil, false, nil)
+	rcv.transferConfig.Protocol = 4
+	rcv.transferConfig.Directory = true
+	top := &sourceFile{PathID: 0, RelPath: []string{"d"}, IsDir: true, Archive: true}
+	w, _, err := rcv.createDirOrFile(root, top, false)
+	verifAssert(err == nil, "archive writer error")
+	verifAssert(w != nil, "no archive writer")
+	wsize := []int{1, verifBound("BIG"), len(stream) + 1}[verifNondetRange(0, 2)]
+	for pos := 0; pos < len(stream); {
+		end := pos + wsize
+		if end > len(stream) {
+			end = len(stream)
+		}
+		verifAssert(writeAll(w, stream[pos:end]) == nil, "write error: a valid stream was refused under this segmentation")
+		pos = end
+	}
+	w.Close()
+	verifAssert(verifFSOpenHandles() == 0, "handles left open after Close")
+	verifAssert(verifFSKind(root+path) == 2, "deepest directory missing")
+	got := verifFSContent(root + path + "/f")
+	verifAssert(len(got) == len(content), "file length")
+	for j := range content {
+		verifAssert(got[j] == content[j], "file content")
+	}
+	verifReach("long-header")
+}
